@@ -191,6 +191,7 @@ pub fn run(ctx: &Ctx) -> i32 {
       }
     } else {
       let mut cells = class_cells(d);
+      cells.extend(carry_cells(d, true));
       let mut extra = vec![];
       for &h in &cells {
         for (_, c) in ref_neighbours(d, h) {
